@@ -44,7 +44,15 @@ CHECKS.update({
    text="Table.tla carries the implementation structure and a ghost keyed map; TLC checks HashConsistent, LookupIsModel, ScanIsModel, SortedByTs, StaleBounded, VersionTracksContent, StagedIsInvisible over all operation sequences at the bound (with compaction inside the bound); the transition cover and long random sequences (serial and 4 threads with cut-offs 0) run on the real tables and after every operation len, full scan, point lookups, constrained scans (Eq/EqConst/Lt/Le/Gt/Ge on key, value and sort column), fast subsets on the sort column and the version are compared with the model."),
 })
 
+CHECKS["C19"] = dict(
+   engine="ThreadPool",
+   technique="TLC model checking of ThreadPool.tla (scope counters, shared queue, helping, backup workers, panics), ROLock.tla (RCU token protocol) and ConcVec.tla: safety invariants, deadlock freedom, termination/progress under weak fairness + seeded stress scenarios on the real egglog-concurrency primitives with cfg(egglog_verif) schedule perturbation, recorded as totally ordered event logs and validated event by event by TLC (Conc_Trace.tla), including the scope-counter histories logged by the hook sites against the counter protocol shared with the design model (PoolCounters.tla)",
+   note="design models are sequentially consistent and bounded (2-3 workers, 3-4 tasks, 3 scopes, help depth scaled to 1; 3-4 lock clients); the real code's OS schedules are sampled with seeded perturbation, not enumerated; the backup-worker path (help depth 64) is reached in the model only; ResettableOnceLock and SharedArena are not driven",
+   ref="6 (C19)",
+   text="ThreadPool.tla has one action per atomic step of Scope::spawn, the job wrapper, complete_one, the done channel and the three ways of waiting (block, help, backup worker); TLC checks ScopeReturnsAfterAll, ExactlyOnce, DoneSentOnce, NoTouchAfterComplete, PanicNotLost, deadlock freedom and termination under weak fairness. ROLock.tla models the ArcSwap token with guard counts and checks reader/writer exclusion and progress; ConcVec.tla checks that readers only see initialised prefixes across resizes. The real primitives are driven by seeded scenario generators (spawn trees with nested scopes and panics on pools of 1..16 threads, reader/writer mixes, concurrent pushes/ranged writes/notifications) and each log is validated by Conc_Trace.tla: tasks start exactly once and only after being spawned, a scope returns only after all its tasks ended and reports exactly the panics that happened, the logged counter operations of every scope form a chain of the counter protocol ending in one done signal, no reader/writer overlap and no torn or stale read, pushes/ranged writes are all present and intact, reads are prefixes.")
+
 NA = {
+ "C20": "bit-for-bit reproducibility is a 2-safety property over artefacts the specification deliberately abstracts (raw id numbering, row order inside a timestamp, hash seeds, addresses); a TLA+ model that fixed them would transcribe the hashing, one that does not cannot distinguish two runs; deciding it needs a twin-process byte comparison, which is a different technique (DESIGN.md section 8)",
 }
 DEFAULT_NA = "check not built yet (work in progress, DESIGN.md section 10)"
 
